@@ -22,7 +22,13 @@ RULE = ("cases = (reflection vector, last entry non-zero, any rational magnitude
         "parcor_stable; the same with plain float coefficients (dyadic roots and gains, every coefficient an exact "
         "double, degree up to 16/20); (reflection vector in (-1,1): dyadic | dyadic with |k| <= 1/2 | any, r0, power-of-two "
         "scale 2^s with s = 0 | |s| <= 60 | -700..-480 | 480..700, order given | default) for levinson_durbin / parcor "
-        "on plain float lags; plus a grid of first-order int/float denominators. oracle = step-up "
+        "on plain float lags; plus a grid of first-order int/float denominators and a grid of float denominators of "
+        "degree 1-2 with leading coefficient and poles between 2^-1060 and 2^1000. levinson_durbin cases also draw: "
+        "reflection vectors of any rational magnitude other than 1 (negative prediction errors), a last entry +-1 "
+        "(error 0, step-down stops on it), r0 of either sign, the order written as default | number of lags - 1 | "
+        "lower | beyond the lags (zero extension; number of lags exactly, +1, +2), whole-block data lags with any "
+        "order, and a history of 0-2 earlier levinson_durbin calls on the very same list object (other lags "
+        "written in place by slice or item by item, or the same lags with another order). oracle = step-up "
         "recursion / reference step-down in Fractions, exact Toeplitz solves, pole moduli known "
         "from the construction; non-trivial = order >= 2; distinct = distinct case hash")
 ASSUMPTIONS = [
@@ -32,6 +38,8 @@ ASSUMPTIONS = [
   "int coefficients are used only on the first-order grid, where k = a1/a0 is exactly representable",
   "float denominators beyond first order: every coefficient is exactly the rational it stands for (dyadic roots/gains), so the poles are the chosen ones; floats are used only when an a-priori rounding bound of the step-down (8 roundings counted per operation) leaves every deciding | |k| - 1 | at least 64 bounds wide, otherwise the same case runs with exact numbers",
   "ParCorError from parcor is required exactly when a yielded coefficient has modulus 1 (the division that follows is by 1-k^2 = 0)",
+  "levinson_durbin(r, order) answers for the lags that are in r when it is called (zero beyond the given ones), whatever was done with the list object or with other lags before; a last reflection coefficient of modulus 1 gives error 0 and no exception (parcor then yields it and raises ParCorError); an order beyond the lags is checked only when every leading Yule-Walker system of the zero-extended lags is non-singular",
+  "floats of extreme magnitude (grid): every coefficient is an exact double and every reflection coefficient of the exact step-down is below 2^-50 or, the first that is not, above 2^50, so the verdict of a double precision step-down is certain; only the verdict and the first coefficient parcor yields are asserted there (the step after a coefficient beyond sqrt(max double) overflows in the unchanged code as well)",
   "float lags: the lags are the doubles nearest to (constructed rational lag) * 2^s and the reference is the exact recursion on those doubles (rational lags, as the property says); the tolerance is an a-priori bound of a double precision run of the recursion (delta = sum a_j r_(m-j); E as quadratic form of the coefficients or as E.(1-k^2), whichever bound is larger; k = -delta/E; coefficient update) followed by the step-down, 8 roundings counted per operation, evaluated in units of 2^s: lags, delta and E are lag-sized, coefficients are pure numbers, so for |s| <= 700 no quantity of the recursion leaves the normal double range and a lag-sized product that underflows is off by at most 2^-374 lag units (added per operation); floats are used only when every bound (coefficients, each k, error / E) is below 2^-20, otherwise the same lags run as exact numbers",
 ]
 
@@ -237,21 +245,52 @@ def run_stepdown(case):
 # ------------------------------------------------------------ after Levinson
 _sample = st.one_of(st.fractions(min_value=-3, max_value=3, max_denominator=6),
                     st.integers(-3, 3).map(Fraction))
+_R0 = st.fractions(min_value=Fraction(1, 8), max_value=6, max_denominator=8)
+_REFILL = ["slice", "slice", "items", "items", "keep"]
+
+
+def _history(pmax):
+  """Earlier levinson_durbin calls made on the very list object the call under test gets: each entry
+  has its own lags (a reflection vector in (-1, 1), cycled to the length at hand, and r0) or, with
+  lags == "final", the lags of the call under test (an order sweep), an order mode, and the way the
+  list is given its content for that call (slice assignment, item by item; "keep" = not written
+  again when the content is already the wanted one)."""
+  entry = st.fixed_dictionaries(dict(
+    lags=st.sampled_from(["own", "own", "own", "final"]),
+    ks=st.lists(_kin, min_size=1, max_size=pmax).map(lambda v: [Q(k) for k in v]),
+    r0=_R0.map(Q),
+    order=st.sampled_from(["default", "given", "lower", "lower", "beyond"]),
+    m=st.integers(0, 7),
+    refill=st.sampled_from(_REFILL)))
+  return st.one_of(st.just([]), st.lists(entry, min_size=1, max_size=2))
 
 
 def strat_levinson(tier):
   pmax = 6 if tier == "quick" else 8
 
-  def kvec():
-    return st.tuples(st.lists(st.one_of(*(w(_kin, 4) + [st.just(Fraction(0))])), min_size=0, max_size=pmax - 1),
-                     _nz(_kin)).map(lambda t: [Q(k) for k in t[0] + [t[1]]])
+  def kvec(kind="inside"):
+    if kind == "inside":
+      body, last = st.one_of(*(w(_kin, 4) + [st.just(Fraction(0))])), _nz(_kin)
+    else:
+      # any rational magnitude other than 1: prediction errors of either sign
+      body = st.one_of(*(w(_kbig.filter(lambda k: abs(k) != 1), 3) + w(_kin, 2) + [st.just(Fraction(0))]))
+      last = _nz(_kbig).filter(lambda k: abs(k) != 1) if kind == "any" else _unit   # "unitlast"
+    return st.tuples(st.lists(body, min_size=0, max_size=pmax - 1), last).map(
+      lambda t: [Q(k) for k in t[0] + [t[1]]])
+
+  hist = dict(before=_history(pmax), refill=st.sampled_from(_REFILL), m=st.integers(0, 7),
+              extra=st.sampled_from([0, 0, 1, 2]))
+  orders = ["default", "default", "given", "given", "lower", "beyond", "beyond"]
 
   def case(kind):
     if kind == "k":
       return st.fixed_dictionaries(dict(
-        src=st.just("k"), ks=kvec(),
-        r0=st.fractions(min_value=Fraction(1, 8), max_value=6, max_denominator=8).map(Q),
-        order=st.sampled_from(["default", "given"])))
+        src=st.just("k"), ks=kvec(), r0=_R0.map(Q), order=st.sampled_from(orders), **hist))
+    if kind in ("any", "unitlast"):
+      return st.fixed_dictionaries(dict(
+        src=st.just("k"), ks=kvec(kind),
+        r0=st.one_of(_R0, _R0, _R0.map(lambda v: -v)).map(Q),
+        order=st.sampled_from(orders if kind == "any" else ["default", "given", "lower"]), **hist))
     if kind == "kc":
       # reflection vectors with autocorrelation lags that vanish exactly: at the marked positions
       # (the last one, mostly) the coefficient is the one value that cancels the lag - a zero lag
@@ -260,14 +299,23 @@ def strat_levinson(tier):
         src=st.just("k"), ks=st.just(ks),
         cancel=st.tuples(st.lists(st.sampled_from([False, False, True]), min_size=len(ks) - 1, max_size=len(ks) - 1),
                          st.sampled_from([True, True, True, False])).map(lambda t: t[0] + [t[1]]),
-        r0=st.fractions(min_value=Fraction(1, 8), max_value=6, max_denominator=8).map(Q),
-        order=st.sampled_from(["default", "default", "default", "given"]))))
+        r0=_R0.map(Q),
+        order=st.sampled_from(["default", "default", "default", "given"]), **hist)))
+    if kind == "datafull":
+      # every lag of the block is given (len(blk) of them; the ones beyond are exactly zero, so the
+      # zero extension the code makes for a larger order is the true autocorrelation): any order
+      return st.lists(_sample.map(Q), min_size=2, max_size=pmax).flatmap(
+        lambda blk: st.fixed_dictionaries(dict(src=st.just("data"), blk=st.just(blk), full=st.just(True),
+                                               order=st.one_of(st.integers(1, len(blk) + 2), st.just(len(blk)),
+                                                               st.just("default")),
+                                               **hist)))
     return st.lists(_sample.map(Q), min_size=2, max_size=pmax + 1).flatmap(
       lambda blk: st.fixed_dictionaries(dict(src=st.just("data"), blk=st.just(blk),
                                              order=st.one_of(st.integers(1, len(blk) - 1),
                                                              st.integers(1, len(blk) - 1),
-                                                             st.just("default")))))
-  return st.sampled_from(["k", "k", "kc", "kc", "kc", "data", "data"]).flatmap(case)
+                                                             st.just("default")), **hist)))
+  return st.sampled_from(["k", "k", "k", "any", "any", "unitlast", "kc", "kc", "kc", "kc",
+                          "data", "data", "datafull"]).flatmap(case)
 
 
 def cancelling_ks(r0, ks, cancel):
@@ -291,67 +339,220 @@ def cancelling_ks(r0, ks, cancel):
   return out
 
 
+def toeplitz_ks(r, n):
+  """Reflection coefficients of orders 1..n of the lags r (zero beyond the given ones): the last
+  entry of the solution of each leading Yule-Walker system, solved exactly.  None when one of the
+  systems is singular (a coefficient of modulus 1 below the order)."""
+  r = list(r) + [Fraction(0)] * (n + 1 - len(r))
+  ks = []
+  for m in range(1, n + 1):
+    y = solve([[r[abs(i - j)] for j in range(m)] for i in range(m)], [-r[i] for i in range(1, m + 1)])
+    if y is None:
+      return None
+    ks.append(y[-1])
+  return ks
+
+
+def _call_ld(buf, mode, nlags, m):
+  """levinson_durbin on the list ``buf`` of ``nlags`` lags with the order written as ``mode`` says."""
+  top = nlags - 1
+  if mode == "default" or top < 1:
+    return levinson_durbin(buf)
+  if mode == "lower" and top >= 2:
+    return levinson_durbin(buf, 1 + m % (top - 1))
+  if mode == "beyond":
+    return levinson_durbin(buf, top + 1 + m % 2)
+  return levinson_durbin(buf, top)
+
+
+def _fill(buf, vals, how):
+  """The list the caller keeps for its lags, holding ``vals``: a new list the first time, then the
+  same object written in place."""
+  if buf is None:
+    return list(vals)
+  if len(buf) != len(vals):
+    raise AssertionError("history lags of another length")
+  if how == "keep" and buf == vals:
+    return buf
+  if how == "items":
+    for i, v in enumerate(vals):
+      buf[i] = v
+  else:
+    buf[:] = vals
+  return buf
+
+
+def run_history(case, final, labels):
+  """The calls of case["before"] on one list; returns (the list, [(filter, numerator, error, text)])."""
+  buf = None
+  seen = []
+  nl = len(final)
+  for ent in case.get("before") or []:
+    if ent["lags"] == "final":
+      lags = list(final)
+      labels.append("history: same lags, other call before (order sweep)")
+    else:
+      kb = [fr(ent["ks"][i % len(ent["ks"])]) for i in range(nl - 1)]
+      lags = [Q(v) for v in r_from_reflections(fr(ent["r0"]), kb)]
+      labels.append("history: same list held other lags before")
+    buf = _fill(buf, lags, ent["refill"])
+    text = "levinson_durbin(%s, order %s)" % (show(lags), ent["order"])
+    try:
+      f = _call_ld(buf, ent["order"], nl, ent["m"])
+    except ParCorError:
+      if ent["order"] == "beyond" or ent["lags"] == "final":
+        continue      # a zero extension (or the lags under test themselves) may be singular
+      raise Violation("%s raised ParCorError: these lags have every |k| < 1" % text)
+    if buf != lags:
+      raise Violation("%s changed the caller's list to %s" % (text, show(buf)))
+    seen.append((f, [fr(v) for v in f.numerator], fr(f.error), text))
+  return buf, seen
+
+
 def run_levinson(case):
+  labels = []
+  mode = case["order"]
   if case["src"] == "k":
     ks = [fr(k) for k in case["ks"]]
     if case.get("cancel"):
       ks = cancelling_ks(case["r0"], ks, case["cancel"])
     r = r_from_reflections(case["r0"], ks)
     p = len(ks)
+    n = p
+    if mode == "lower":
+      if p >= 2:
+        n = 1 + case.get("m", 0) % (p - 1)
+      else:
+        mode = "given"
+    elif mode == "beyond":
+      n = p + 1 + case.get("extra", 0)
+      ext = toeplitz_ks(r, n) if all(abs(k) != 1 for k in ks) else None
+      if ext is None:
+        mode, n = "given", p
+      else:
+        if ext[:p] != ks:
+          raise AssertionError("Toeplitz solves contradict the construction")   # oracle self-check
+        ks = ext
+    ks = ks[:n]
     rq = [Q(v) for v in r]
-    if case["order"] != "default" and len(ks) % 2:
+    buf, seen = run_history(case, rq, labels)
+    rq = _fill(buf, rq, case.get("refill", "slice"))
+    if mode == "given" and len(ks) % 2:
       # the same lag list was first used with a larger order (zero extension): the recursion for
       # this order is a function of the lags it is given now, not of what happened to the list before
-      levinson_durbin(rq, p + 2)
+      try:
+        levinson_durbin(rq, p + 2)
+      except ParCorError:
+        if all(abs(k) != 1 for k in ks) and toeplitz_ks(r, p + 2) is not None:
+          raise
       if rq != [Q(v) for v in r]:
         raise Violation("levinson_durbin(r, order beyond the lags) changed the caller's list r to %s" % show(rq))
       filt = levinson_durbin(rq)
+    elif mode == "default":
+      filt = levinson_durbin(rq)
     else:
-      filt = levinson_durbin(rq) if case["order"] == "default" else levinson_durbin(rq, p)
+      filt = levinson_durbin(rq, n)
+    if rq != [Q(v) for v in r]:
+      raise Violation("levinson_durbin(r = %s, order %s) changed the caller's list r to %s" % (show(r), mode, show(rq)))
+    if mode == "beyond":
+      labels.append("order beyond the lags")
+      if n == p + 1:
+        labels.append("order == number of lags")
+    elif mode == "lower":
+      labels.append("order below the lags")
+    if fr(case["r0"]) < 0:
+      labels.append("r0 negative")
   else:
     x = [fr(v) for v in case["blk"]]
-    p = len(x) - 1 if case["order"] == "default" else case["order"]
-    r = [sum((x[i] * x[i + t] for i in range(len(x) - t)), Fraction(0)) for t in range(p + 1)]
-    if r[0] == 0:
-      raise Reject()
-    ks = []
-    for m in range(1, p + 1):
-      y = solve([[r[abs(i - j)] for j in range(m)] for i in range(m)], [-r[i] for i in range(1, m + 1)])
-      ks.append(y[-1])          # data autocorrelations are positive definite: never singular
-    filt = levinson_durbin([Q(v) for v in r]) if case["order"] == "default" else levinson_durbin([Q(v) for v in r], p)
-  lags = ["order:default" if case["order"] == "default" else "order:given"]
-  if ks and ks[-1] != 0 and r[-1] == 0:
+    if case.get("full"):
+      # all len(x) lags are given, whatever the order
+      n = len(x) - 1 if mode == "default" else mode
+      p = len(x) - 1
+      r = [sum((x[i] * x[i + t] for i in range(len(x) - t)), Fraction(0)) for t in range(len(x))]
+      if r[0] == 0:
+        raise Reject()
+      ks = toeplitz_ks(r, n)      # data autocorrelations (zero beyond the block) are positive definite
+      rq = [Q(v) for v in r]
+      buf, seen = run_history(case, rq, labels)
+      rq = _fill(buf, rq, case.get("refill", "slice"))
+      filt = levinson_durbin(rq) if mode == "default" else levinson_durbin(rq, n)
+      if rq != [Q(v) for v in r]:
+        raise Violation("levinson_durbin(r = %s, %s) changed the caller's list r to %s" % (show(r), n, show(rq)))
+      if n > p:
+        labels.append("order beyond the lags")
+        if n == p + 1:
+          labels.append("order == number of lags")
+      elif n < p:
+        labels.append("order below the lags")
+    else:
+      p = len(x) - 1 if mode == "default" else mode
+      r = [sum((x[i] * x[i + t] for i in range(len(x) - t)), Fraction(0)) for t in range(p + 1)]
+      if r[0] == 0:
+        raise Reject()
+      ks = []
+      for m in range(1, p + 1):
+        y = solve([[r[abs(i - j)] for j in range(m)] for i in range(m)], [-r[i] for i in range(1, m + 1)])
+        ks.append(y[-1])          # data autocorrelations are positive definite: never singular
+      rq = [Q(v) for v in r]
+      buf, seen = run_history(case, rq, labels)
+      rq = _fill(buf, rq, case.get("refill", "slice"))
+      filt = levinson_durbin(rq) if mode == "default" else levinson_durbin(rq, p)
+  lags = ["order:default" if mode == "default" else "order:given"] + sorted(set(labels))
+  if seen:
+    lags.append("history: same list object used before")
+  rn = r[:len(ks) + 1] + [Fraction(0)] * (len(ks) + 1 - len(r))    # the lags the order at hand reads
+  if ks and ks[-1] != 0 and rn[-1] == 0:
     lags.append("last lag zero, last k non-zero")
-    if case["order"] == "default":
+    if mode == "default":
       lags.append("last lag zero, default order")
-  if any(v == 0 and k != 0 for v, k in zip(r[1:-1], ks[:-1])):
+  if any(v == 0 and k != 0 for v, k in zip(rn[1:-1], ks[:-1])):
     lags.append("zero lag inside, k non-zero")
-  while ks and ks[-1] == 0:     # the order is the highest non-zero coefficient
-    ks.pop()
-  what = "levinson_durbin(%s)" % show(r)
-  num_before = [fr(v) for v in filt.numerator]
-  got, raised = collect(parcor(filt))
-  gf = [fr(k) for k in got]
-  if raised:
-    raise Violation("parcor(%s) raised ParCorError after %s although every |k| < 1 (k = %s)"
-                    % (what, show(gf), show(ks)))
-  if gf[::-1] != ks:
-    raise Violation("parcor(%s) reversed is %s, the recursion's reflection coefficients are %s"
-                    % (what, show(gf[::-1]), show(ks)))
   err = r[0]
   for k in ks:
     err *= 1 - k * k
+  while ks and ks[-1] == 0:     # the order is the highest non-zero coefficient
+    ks.pop()
+  what = "levinson_durbin(%s%s)" % (show(r), "" if mode == "default" else ", %d" % (len(rn) - 1))
+  if seen:
+    what += " [after, on the same list object: %s]" % "; ".join(t[3] for t in seen)
+  for f, num, e, text in seen:
+    if [fr(v) for v in f.numerator] != num or fr(f.error) != e:
+      raise Violation("%s changed the result of the earlier call %s: numerator %s -> %s, error %s -> %s"
+                      % (what, text, show(num), show(f.numerator), e, f.error))
+  num_before = [fr(v) for v in filt.numerator]
+  got, raised = collect(parcor(filt))
+  gf = [fr(k) for k in got]
+  if ks and abs(ks[-1]) == 1:
+    # the last reflection coefficient has modulus one: error 0, and the step-down stops on it
+    if not raised or gf != [ks[-1]]:
+      raise Violation("parcor(%s) yields %s%s; the last reflection coefficient is %s: expected it, then ParCorError "
+                      "(k = %s)" % (what, show(gf), " then ParCorError" if raised else "", ks[-1], show(ks)))
+    lags.append("last |k| = 1")
+  else:
+    if raised:
+      raise Violation("parcor(%s) raised ParCorError after %s although no |k| is 1 (k = %s)"
+                      % (what, show(gf), show(ks)))
+    if gf[::-1] != ks:
+      raise Violation("parcor(%s) reversed is %s, the recursion's reflection coefficients are %s"
+                      % (what, show(gf[::-1]), show(ks)))
+    back = stepup(gf[::-1])
+    if back != num_before:
+      raise Violation("step-up of parcor(%s) = %s rebuilds %s, the filter is %s"
+                      % (what, show(gf), show(back), show(num_before)))
   if filt.error != err:
     raise Violation("%s: error %r != r0 * prod(1 - k^2) = %s (k = %s)" % (what, filt.error, err, show(ks)))
-  back = stepup(gf[::-1])
-  if back != num_before:
-    raise Violation("step-up of parcor(%s) = %s rebuilds %s, the filter is %s"
-                    % (what, show(gf), show(back), show(num_before)))
+  if stepup(ks) != num_before:
+    raise Violation("%s is %s; the step-up recursion on its reflection coefficients %s gives %s"
+                    % (what, show(num_before), show(ks), show(stepup(ks))))
   if [fr(v) for v in filt.numerator] != num_before or list(filt.denominator) != [1]:
     raise Violation("parcor modified the filter it was given")
   labels = ["src:" + case["src"], "order %d" % min(len(ks), 9)] + lags
   if any(k == 0 for k in ks):
     labels.append("zero inside")
+  if any(abs(k) > 1 for k in ks):
+    labels.append("some |k| > 1")
+  if err < 0:
+    labels.append("error negative")
   return {"nontrivial": len(ks) >= 2, "labels": labels}
 
 
@@ -817,7 +1018,12 @@ def strat_levinson_float(tier):
     r0=st.one_of(st.fractions(min_value=Fraction(1, 8), max_value=6, max_denominator=8),
                  st.integers(1, 48).map(lambda n: Fraction(n, 8))).map(Q),
     scale=st.tuples(st.sampled_from(_SCALE_REGIMES), st.integers(0, 220)).map(_scale),
-    order=st.sampled_from(["default", "given"])))
+    order=st.sampled_from(["default", "given"]),
+    # an earlier call on the same list object, which then held other lags (same scale)
+    before=st.one_of(st.none(), st.fixed_dictionaries(dict(
+      ks=st.lists(_kin, min_size=1, max_size=pmax).map(lambda v: [Q(k) for k in v]),
+      r0=_R0.map(Q), order=st.sampled_from(["default", "given", "lower", "beyond"]), m=st.integers(0, 7),
+      refill=st.sampled_from(["slice", "items"]))))))
 
 
 def run_levinson_float(case):
@@ -839,9 +1045,30 @@ def run_levinson_float(case):
     return {"nontrivial": res["nontrivial"],
             "labels": labels + ["exact numbers (float bound too wide)"] + res["labels"]}
   ks, A, E, eA, eE = ref
-  given = list(rf)
-  filt = levinson_durbin(given) if case["order"] == "default" else levinson_durbin(given, p)
+  given = None
+  earlier = None
+  bef = case.get("before")
   what = "levinson_durbin(2^%d * %s as floats)" % (s, show(rx))
+  if bef:
+    kb = [fr(bef["ks"][i % len(bef["ks"])]) for i in range(p)]
+    lb = [float(v * sc) for v in r_from_reflections(fr(bef["r0"]), kb)]
+    given = list(lb)
+    try:
+      f0 = _call_ld(given, bef["order"], p + 1, bef["m"])
+      earlier = (f0, list(f0.numerator), f0.error)
+    except ParCorError:
+      if bef["order"] != "beyond":     # only a zero extension may be singular
+        raise
+    if given != lb:
+      raise Violation("levinson_durbin changed the caller's lag list %r" % (lb,))
+    what += " [the same list object held %r in an earlier call, order %s]" % (lb, bef["order"])
+    labels.append("float lags, same list held other lags before")
+  given = _fill(given, rf, bef["refill"] if bef else "slice")
+  filt = levinson_durbin(given) if case["order"] == "default" else levinson_durbin(given, p)
+  if earlier is not None:
+    if list(earlier[0].numerator) != earlier[1] or earlier[0].error != earlier[2]:
+      raise Violation("%s changed the result of the earlier call: numerator %r -> %r, error %r -> %r"
+                      % (what, earlier[1], list(earlier[0].numerator), earlier[2], earlier[0].error))
   if given != rf or any(type(v) is not float for v in given):
     raise Violation("%s changed the caller's lag list" % what)
   num = list(filt.numerator)
@@ -920,6 +1147,93 @@ def run_first_order(case):
                      "int coefficients" if isinstance(g, int) and isinstance(a1, int) else "float coefficients"]}
 
 
+# ------------------------------------- float denominators of extreme magnitude
+# Leading coefficients and poles far from 1 (2^-1060 .. 2^1000): every coefficient is an exact
+# double (checked), the quotient by the leading coefficient is therefore exact, and each reflection
+# coefficient of the exact step-down is either below 2^-50 or - the first one that is not - above
+# 2^50 in modulus, so no rounding of the step-down can move it across 1.
+_XG = [1.0, -2.5, 7.0, 2.0 ** -1060, -3 * 2.0 ** -1040, 2.0 ** 1000, -2.0 ** -500, 3e300, -5 * 2.0 ** 400]
+_XPOLY = (
+  [("r", v) for v in (2.0 ** 600, -3 * 2.0 ** 520, 1e200, -1e160, 3e307, 2.0 ** -600, -3 * 2.0 ** -700, 1e-200,
+                      -2.0 ** -1000)] +
+  [("pm", v) for v in (2.0 ** 300, 1e80, 5 * 2.0 ** 400, 2.0 ** -300, 3 * 2.0 ** -400)] +      # poles +v and -v
+  [("c", a, b) for a, b in ((3 * 2.0 ** 300, 4 * 2.0 ** 300), (-6e77, 8e77), (2.0 ** 500, 2.0 ** 500),
+                            (3 * 2.0 ** -300, -4 * 2.0 ** -300), (0.0, 2.0 ** -250))])           # a +- bi
+
+
+def _extreme(g, poly):
+  """(monic denominator, denominator, pole modulus scale) in exact numbers, or None when one of the
+  coefficients is not a double (overflow, underflow)."""
+  g = Fraction(g)
+  if poly[0] == "r":
+    r = Fraction(poly[1])
+    monic, mod = [Fraction(1), -r], abs(r)
+  elif poly[0] == "pm":
+    r = Fraction(poly[1])
+    monic, mod = [Fraction(1), Fraction(0), -r * r], abs(r)
+  else:
+    a, b = Fraction(poly[1]), Fraction(poly[2])
+    monic, mod = [Fraction(1), -2 * a, a * a + b * b], max(abs(a), abs(b))
+  den = [g * c for c in monic]
+
+  def double(c):
+    try:
+      return Fraction(float(c)) == c
+    except OverflowError:
+      return False
+  if not all(double(c) for c in den + monic):
+    return None
+  return monic, den, mod
+
+
+def grid_extreme(tier, shard, nshards):
+  i = 0
+  for g in _XG:
+    for poly in _XPOLY:
+      if _extreme(g, poly) is None:
+        continue                          # constructed, not filtered: only denominators of exact doubles
+      for route in ("list", "recip"):
+        i += 1
+        if i % nshards == shard:
+          yield dict(g=g, poly=list(poly), route=route)
+
+
+def run_extreme(case):
+  g = Fraction(case["g"])
+  built = _extreme(case["g"], case["poly"])
+  if built is None:
+    raise Reject()
+  monic, den, mod = built
+  mods = [mod]
+  ref, stop = stepdown_ref(monic)
+  lim = Fraction(2) ** 50
+  first_big = next((i for i, k in enumerate(ref) if abs(k) * lim >= 1), None)
+  if stop or (first_big is not None and abs(ref[first_big]) < lim):
+    raise AssertionError("grid value without a certain float verdict")
+  expect = all(m < 1 for m in mods)
+  if expect != (first_big is None):
+    raise AssertionError("step-down criterion contradicts the chosen roots")   # oracle self-check
+  fd = [float(c) for c in den]
+  filt = ZFilter([1.], fd) if case["route"] == "list" else ZFilter([1.]) / ZFilter(fd)
+  what = "parcor_stable(1 / %r)" % (fd,)
+  got = parcor_stable(filt)
+  if got is not expect:
+    raise Violation("%s is %r; the poles have modulus about %r => %s"
+                    % (what, got, float(mods[0]), "stable" if expect else "not stable"))
+  # the highest reflection coefficient comes out of parcor before anything else happens
+  first = next(parcor(ZFilter([float(c) for c in monic])))
+  if type(first) is not float or Fraction(first) != monic[-1]:
+    raise Violation("parcor(%r) first yields %r, the last coefficient is %r"
+                    % ([float(c) for c in monic], first, float(monic[-1])))
+  return {"nontrivial": len(monic) > 2,
+          "labels": ["poles tiny" if expect else "poles huge",
+                     "leading coefficient 1" if g == 1 else
+                     "leading coefficient below 2^-400" if abs(g) < Fraction(1, 2 ** 400) else
+                     "leading coefficient above 2^400" if abs(g) > 2 ** 400 else "leading coefficient ordinary",
+                     "|k| beyond sqrt(max double)" if any(abs(k) > Fraction(2) ** 512 for k in ref) else "k**2 finite",
+                     "degree %d" % (len(monic) - 1)]}
+
+
 CLAUSES = [
   Clause("stepdown", strat_stepdown, run_stepdown, quick=1500, thorough=20000,
          floors={"src:ks": .2, "src:coeffs": .08, "ParCorError": .03, "some |k|>1": .1,
@@ -928,7 +1242,11 @@ CLAUSES = [
              "step-up of the yielded coefficients rebuilds the filter"),
   Clause("levinson", strat_levinson, run_levinson, quick=800, thorough=10000,
          floors={"src:k": .2, "src:data": .08, "last lag zero, default order": .03,
-                 "zero lag inside, k non-zero": .01, "order:default": .2, "order:given": .12},
+                 "zero lag inside, k non-zero": .01, "order:default": .2, "order:given": .12,
+                 "history: same list held other lags before": .12,
+                 "history: same lags, other call before (order sweep)": .025,
+                 "order below the lags": .03, "order beyond the lags": .03, "order == number of lags": .012,
+                 "some |k| > 1": .03, "error negative": .015, "last |k| = 1": .025, "r0 negative": .025},
          doc="parcor(levinson_durbin(r)) reversed == reflection coefficients, "
              "error == r0*prod(1-k^2), step-up rebuilds the filter"),
   Clause("stable", strat_stable, run_stable, quick=2000, thorough=24000,
@@ -947,11 +1265,16 @@ CLAUSES = [
              "any dyadic gain: == every chosen root strictly inside the unit circle"),
   Clause("levinson_float", strat_levinson_float, run_levinson_float, quick=700, thorough=8000,
          floors={"float lags": .25, "float lags, scale below 2^-545": .08, "float lags, scale above 2^520": .06,
-                 "float lags, order >= 4": .1, "lags rounded to doubles": .08, "lags exact doubles": .15},
+                 "float lags, order >= 4": .1, "lags rounded to doubles": .08, "lags exact doubles": .15,
+                 "float lags, same list held other lags before": .08},
          shards={"quick": 16, "thorough": 32},
          doc="levinson_durbin / parcor on plain float lags (exact rational lags times 2^s, |s| <= 700, as doubles): "
              "reflection coefficients, filter and error / 2^s agree with the exact recursion on those doubles "
              "within the a-priori rounding bound, at every scale"),
   Enumerated("first_order", grid_first_order, run_first_order, shards={"quick": 2, "thorough": 2},
              doc="int / float first-order denominators g - g.r z^-1 over a grid of gains and poles"),
+  Enumerated("extreme_float", grid_extreme, run_extreme, shards={"quick": 2, "thorough": 2},
+             doc="float denominators of degree 1 and 2 whose leading coefficient and poles are far from 1 "
+                 "(2^-1060 .. 2^1000, reflection coefficients beyond sqrt(max double)): parcor_stable is a bool "
+                 "equal to 'poles inside', parcor yields the highest coefficient first"),
 ]
